@@ -10,7 +10,8 @@
 (* takes Run("feature", ..).  Fragments for the other entry points are      *)
 (* embedded into a minimal feature (Feature: / Scenario:) and the embedding *)
 (* elements are dropped: what a faithful parse_rule / parse_scenario /      *)
-(* parse_steps has to return.  parse_tags: the tags of all tag lines.       *)
+(* parse_steps has to return.  parse_tags: the tags of all tag lines with    *)
+(* their 1-based lines.                                                     *)
 EXTENDS GherkinParser, TLC, Json, IOUtils
 Rows == ndJsonDeserialize(IOEnv.TRACE_FILE)
 
@@ -70,20 +71,21 @@ LineDiff(a, b) == First({j \in DOMAIN a : LineField(a[j], b[j]) # ""})
 TypeDiff(a, b) == First({j \in DOMAIN a : a[j].st # b[j].st})
 LangDiff(a, b) == First({j \in DOMAIN a : a[j].lg # b[j].lg})
 
-\* expected tags of a parse_tags input: every tag of every tag line, in order
+\* expected result of a parse_tags input: every tag of every tag line, in order, with its 1-based line
 RECURSIVE AllTags(_,_)
 AllTags(lines, j) == IF j > Len(lines) THEN <<>>
-                     ELSE (IF lines[j].c = "Tags" THEN lines[j].ps ELSE <<>>) \o AllTags(lines, j + 1)
-TagsWellFormed(lines) == lines # <<>> /\ lines[1].c = "Tags" /\ lines[1].ind = 0
-                         /\ \A j \in DOMAIN lines : lines[j].c \in {"Tags", "_", "#"} /\ (lines[j].c = "Tags" => lines[j].a # "bad")
+                     ELSE (IF lines[j].c = "Tags" THEN TagSeq(lines[j].ps, j) ELSE <<>>) \o AllTags(lines, j + 1)
+TagsWellFormed(lines) == \A j \in DOMAIN lines : lines[j].c \in {"Tags", "_", "#"} /\ (lines[j].c = "Tags" => lines[j].a # "bad")
 
 V(c, j, f) == PrintT(<<"VERDICT", R.id, c, j, f>>)
 JudgeTags ==
    IF ~TagsWellFormed(R.lines) THEN PrintT(<<"SKIP", R.id>>)
    ELSE IF ~R.ok THEN V("C04.structure", 0, "exception")
    ELSE LET want == AllTags(R.lines, 1)
-            got  == [q \in DOMAIN R.tags |-> R.tags[q].t]
-        IN IF want # got THEN V("C04.text", 0, "tags") ELSE TRUE
+            got  == R.tags
+        IN IF Len(want) # Len(got) \/ \E q \in DOMAIN want : want[q].t # got[q].t THEN V("C04.text", 0, "tags")
+           ELSE IF \E q \in DOMAIN want : want[q].l # got[q].l THEN V("C04.lines", 0, "tagline")
+           ELSE TRUE
 JudgeModel ==
    LET e == Expected(R) IN
    IF ~e.ok THEN PrintT(<<"SKIP", R.id>>)
